@@ -92,6 +92,28 @@ func runEngine(rep *Report) {
 			// full bounded files with the overflow area in use (meta pages beyond the limit), reopened often
 			p.Overflow, p.Reopen, p.KeepFill, p.BigAlloc = 50, 30, 95, 30
 		}
+		if i%10 == 7 {
+			// a bounded file driven into "overflow area beyond the limit, data end below the limit", then reopened
+			if cfg.MaxPages == 0 {
+				cfg.MaxPages = uint64(65536/cfg.PageSize) + uint64(r.Intn(40))
+				if uint64(cfg.InitMeta) >= cfg.MaxPages-2 {
+					cfg.InitMeta = 4
+				}
+			}
+			q := p
+			q.Txs = 2 + r.Intn(3)
+			s := engine.NewSession(cfg)
+			if s.Open() == "ok" {
+				s.Continue(r, q)
+				s.OverflowGap(r)
+				if s.F != nil {
+					s.Continue(r, q)
+				}
+			}
+			s.Finish()
+			collect(rep, s, i, ps, tw, len(rep.Failures) < 5)
+			continue
+		}
 		s := engine.RunProgram(r, cfg, p)
 		s.Finish()
 		collect(rep, s, i, ps, tw, len(rep.Failures) < 5)
